@@ -79,9 +79,25 @@ class ExprMixin(object):
             if r[0] == "class":
                 return ClassVal(r[1])
             if r[0] == "value":
+                defmod = r[1]
+                if defmod.name in st.modenvs:
+                    menv = st.heap[st.modenvs[defmod.name].id]
+                    dn = self.ce._defname(defmod, r[2])
+                    if dn in menv.vars:
+                        return menv.vars[dn]
                 try:
+                    if len(defmod.assign_nodes.get(self.ce._defname(defmod, r[2]), [0])) > 1:
+                        raise AnalysisError("E5.global", "rebound at module level")
+                    if self._module_mutates(defmod, self.ce._defname(defmod, r[2])):
+                        raise AnalysisError("E5.global", "mutated at module level")
                     return Const(self.ce.eval(r[1], r[2], "E5.global"))
                 except AnalysisError:
+                    # a computed table: abstractly run the module's import-time initialisation
+                    menv_ref = self.module_env(st, defmod)
+                    menv = st.heap[menv_ref.id]
+                    dn = self.ce._defname(defmod, r[2])
+                    if dn in menv.vars:
+                        return menv.vars[dn]
                     raise
             if r[0] == "ext":
                 return ExtVal(r[1])
@@ -92,6 +108,25 @@ class ExprMixin(object):
         if name == "__doc__":
             return Opaque("__doc__")
         raise AnalysisError("E5.name", "unresolved name %s" % name, node, module)
+
+    def _module_mutates(self, module, name):
+        """Is the module-level object `name` modified by a top-level statement after its binding?"""
+        key = ("mutates", module.name, name)
+        cache = self.__dict__.setdefault("_mm_cache", {})
+        if key not in cache:
+            hit = False
+            for stmt in module.tree.body:
+                for n in ast.walk(stmt) if not isinstance(stmt, (ast.FunctionDef, ast.ClassDef)) else []:
+                    if isinstance(n, (ast.Subscript, ast.Attribute)) and isinstance(n.ctx, (ast.Store, ast.Del)):
+                        b = n.value
+                        while isinstance(b, (ast.Subscript, ast.Attribute)):
+                            b = b.value
+                        if isinstance(b, ast.Name) and b.id == name:
+                            hit = True
+                    if isinstance(n, ast.Call) and isinstance(n.func, ast.Attribute) and isinstance(n.func.value, ast.Name) and n.func.value.id == name and n.func.attr in ("update", "append", "extend", "setdefault", "pop", "insert", "clear", "remove"):
+                        hit = True
+            cache[key] = hit
+        return cache[key]
 
     # ------------------------------------------------------------------ eval
     def eval(self, st, env, node):
